@@ -134,7 +134,7 @@ pub fn run(ctx: &mut Ctx) {
     for n in ctx.cases("random", total) {
         let mut rng = ctx.begin("random", n);
         let abs = rng.bool();
-        let mut mk = |rng: &mut crate::rng::Rng, share: &[String]| -> String {
+        let mk = |rng: &mut crate::rng::Rng, share: &[String]| -> String {
             let d = rng.range_usize(1, 6);
             let mut c: Vec<String> = share.iter().take(d.saturating_sub(1)).cloned().collect();
             while c.len() < d {
